@@ -234,9 +234,17 @@ func (r *Range) IsNext(next *Range, size uint64) bool {
 
 func (r *Range) Equals(other *Range) bool {
 	return r.startBlock == other.startBlock &&
-		r.endBlock == other.endBlock &&
+		equalEndBlocks(r.endBlock, other.endBlock) &&
 		r.exclusiveStartBlock == other.exclusiveStartBlock &&
 		r.exclusiveEndBlock == other.exclusiveEndBlock
+}
+
+// equalEndBlocks compares the end block values: both open-ended, or both bounded by the same block
+func equalEndBlocks(a, b *uint64) bool {
+	if a == nil || b == nil {
+		return a == b
+	}
+	return *a == *b
 }
 
 func (r *Range) Size() (uint64, error) {
